@@ -1,6 +1,24 @@
 #!/usr/bin/env python3
-"""Show a replay file: the failed obligation, the verifier's output and, when the native search found
-one, the failing history (replayed against the real crate by the replay harness)."""
-import json, sys
+"""Replay a violation file: print the failed obligation and the verifier's output; when the file
+carries a failing history (tape), run it again against the real crate (rebuilt from /repo) and show it."""
+import json, os, subprocess, sys
+V = os.path.dirname(os.path.dirname(os.path.abspath(__file__)))
 d = json.load(open(sys.argv[1]))
-print(json.dumps(d, indent=1))
+print("property   :", d.get("property"))
+print("obligation :", d.get("obligation"))
+print("clause     :", d.get("clause"))
+print("statement  :", d.get("statement"))
+print("verifier   :", d.get("verifier_message"))
+print((d.get("verifier_output") or "").rstrip())
+fi = d.get("failing_input")
+if not fi:
+    print("no failing input was found (", d.get("note"), ")")
+    sys.exit(1)
+env = dict(os.environ, CARGO_NET_OFFLINE="true"); env.pop("RUSTUP_TOOLCHAIN", None)
+subprocess.run(["cargo", "build", "--release", "--offline", "--manifest-path", os.path.join(V, "replay", "Cargo.toml"), "--target-dir", os.path.join(V, "build", "replay-target")], env=env, capture_output=True)
+p = subprocess.run([os.path.join(V, "build", "replay-target", "release", "replay"), "run", fi["scenario"], json.dumps(fi["tape"])], capture_output=True, text=True)
+r = json.loads(p.stdout)
+print("replayed on the real crate:", fi["scenario"], fi["tape"])
+for l in r["history"]:
+    print("   ", l)
+sys.exit(1 if r["violations"] else 0)
